@@ -9,6 +9,7 @@ import C02 as _c02
 ID = 'C04'
 MODEL_ID = 'ARGS'
 HARNESS = A.HARNESS
+INTERNAL_COMPARABLE = False   # behind '##' the harness prints exception class / texts, the driver a note: never equal
 RULE = ('a case = configuration (random, of the modelled destination kinds) + handler flags (none / argument file / '
         'environment variable / both / no abbreviations) + program name of length 0..40 (with and without slashes) + an '
         'argument vector that is either byte-level fuzz (all byte values 1..255, empty words, words of only dashes, '
